@@ -86,7 +86,7 @@ func responseShapes() []respShape {
 // malformedResponses: k = st-json | sse | stdio (the servers that can issue requests to a session).
 func (r *runner) malformedResponses(k string) {
 	shapes := responseShapes()
-	const wait = 1200 * time.Millisecond // how long a tool waits for its roots before it gives up by itself
+	const wait = 700 * time.Millisecond // how long a tool waits for its roots before it gives up by itself
 	sc, err := newScenarioServer(k, func(register func(string, toolHandler), self *scenarioServer) {
 		register("roots", func(ctx context.Context, req *mcp.CallToolRequest) (*mcp.CallToolResult, error) {
 			c2, cancel := context.WithTimeout(ctx, wait)
@@ -211,9 +211,9 @@ const stormWorkers = 24
 // pipe based ones a few thousand)
 func stormDuration(k string) time.Duration {
 	if k == "sse" || k == "stdio" {
-		return 800 * time.Millisecond
+		return 600 * time.Millisecond
 	}
-	return 500 * time.Millisecond
+	return 350 * time.Millisecond
 }
 
 // handshakeStorm: k = st-json | st-sse | stateless | nosession | sse | stdio. Every worker runs, again and again, the life
